@@ -1,5 +1,31 @@
-"""C14 — engine `ms` (see mscommon.py and coq/Props/C14.v)."""
-import mscommon
+"""C14 — engine `ms` (see mscommon.py and coq/Props/C14.v), plus store queries through BaseApp (engine `app`): right after
+a restart a query that names no height must be answered exactly as the query that names the last committed height."""
+import os
+import appcommon, mscommon
+import common as c
+
+
+def through_baseapp(a, v, cov):
+    res = c.build(["app"])
+    if not res.go_ok:
+        return
+    out, err = appcommon.run_engine_cached(a, res)
+    if err:
+        v.broken_obligation(err.split(":")[0], err)
+        return
+    n = bad = 0
+    path = os.path.join(out, "app.qry")
+    for l in open(path) if os.path.exists(path) else []:
+        n += 1
+        if l.rstrip().split(" ")[-1] != "same" and " DIFF " in l:
+            bad += 1
+            if bad == 1:
+                v.violation({"engine": "app", "kind": "default-height-query-after-restart"},
+                            "after a restart a store query without a height differs from the query at the last committed height: " + l.strip()[:300],
+                            {"line": l.strip()})
+    cov["baseapp_default_height_queries_after_restart"] = n
+    cov["baseapp_default_height_queries_differing"] = bad
+
 
 def run(a):
-    return mscommon.run(a, "C14", "store query / proof wrong")
+    return mscommon.run(a, "C14", "store query / proof wrong", extra=through_baseapp)
